@@ -29,9 +29,12 @@ func genXZWCase(r *sim.Rng, tier string, idx int, tail bool) *WCase {
 	big := false
 	want := 4096
 	switch {
-	case tier == "thorough" && r.Chance(1, 400):
+	case hugeProfile(r, tier, 400):
 		big = true
 		want = r.Range(2<<20, 5<<20)
+		if tier != "thorough" {
+			want = r.Range(2200<<10, 2600<<10)
+		}
 	case r.Chance(1, 12):
 		want = 300 << 10
 		big = r.Chance(1, 4)
@@ -43,11 +46,9 @@ func genXZWCase(r *sim.Rng, tier string, idx int, tail bool) *WCase {
 	pl := sim.GenPayload(r, max)
 	if want > 1<<20 {
 		// large profile: force a large payload of mixed compressibility
-		pl = sim.Payload{Kind: "concat", Parts: []sim.Payload{
-			{Kind: "zeros", N: max / 2},
-			{Kind: "prng", N: max / 4, Seed: r.Uint64()},
-			{Kind: "text", N: max / 4, Seed: r.Uint64()},
-		}}
+		pl = hugePayload(r, tier, max)
+	} else if m := maxPayloadFor(0, cfg.BlockSize, cfg.DictCap, want); cfg.Matcher == 1 && m > 20<<10 && r.Chance(1, 3) {
+		pl = btLongPayload(r, m)
 	}
 	if cfg.DictCap != 0 && cfg.DictCap <= 1<<16 && r.Chance(1, 7) && (cfg.BlockSize == 0 || cfg.BlockSize > 4096) {
 		if cfg.Matcher == 0 || cfg.DictCap <= 8192 {
